@@ -708,3 +708,47 @@ func (e *Engine) PtrFieldExpr(st *State, p ssa.Value, idx int) Lin {
 	key := fmt.Sprintf("%s%s.f%d", ad.Obj, ad.Path, idx)
 	return st.Subst(Var(e.cellInt(key, stt.Field(idx).Type())))
 }
+
+// PtrPathExpr: current integer value of the nested field path (field indices) of the struct p points to.
+func (e *Engine) PtrPathExpr(st *State, p ssa.Value, path []int) Lin {
+	ad, ok := e.addrOf(st, p)
+	if !ok {
+		return Lin{Bad: true}
+	}
+	pt, ok := p.Type().Underlying().(*types.Pointer)
+	if !ok {
+		return Lin{Bad: true}
+	}
+	t := pt.Elem()
+	key := ad.Obj + ad.Path
+	for _, idx := range path {
+		stt, ok := t.Underlying().(*types.Struct)
+		if !ok || idx >= stt.NumFields() {
+			return Lin{Bad: true}
+		}
+		key += fmt.Sprintf(".f%d", idx)
+		t = stt.Field(idx).Type()
+	}
+	if !isInt(t) {
+		return Lin{Bad: true}
+	}
+	return st.Subst(Var(e.cellInt(key, t)))
+}
+
+// PtrFieldLenExpr: current length of the slice field idx of the struct the pointer value p points to.
+func (e *Engine) PtrFieldLenExpr(st *State, p ssa.Value, idx int) Lin {
+	ad, ok := e.addrOf(st, p)
+	if !ok {
+		return Lin{Bad: true}
+	}
+	pt, ok := p.Type().Underlying().(*types.Pointer)
+	if !ok {
+		return Lin{Bad: true}
+	}
+	stt, ok := pt.Elem().Underlying().(*types.Struct)
+	if !ok || idx >= stt.NumFields() || !isSliceLike(stt.Field(idx).Type()) {
+		return Lin{Bad: true}
+	}
+	key := fmt.Sprintf("%s%s.f%d", ad.Obj, ad.Path, idx)
+	return st.Subst(Var(e.cellLen(key)))
+}
